@@ -1,11 +1,341 @@
 package main
 
-// Thorough-tier extras shared by all properties (filled in incrementally).
+// Thorough-tier extras: call-graph cross-check, build-coverage reload,
+// compiler bounds-check cross-reference (C07), sensitivity matrix over the
+// in-memory mutants, cross-reference tool counts.
 
-func thorough(c *Ctx) {}
+import (
+	"bytes"
+	"encoding/json"
+	"fmt"
+	"os"
+	"os/exec"
+	"path/filepath"
+	"regexp"
+	"sort"
+	"strings"
+	"sync"
 
+	"golang.org/x/tools/go/ssa"
+)
+
+type mutantDef struct {
+	ID       string `json:"id"`
+	Property string `json:"property"`
+	File     string `json:"file"`
+	Old      string `json:"old"`
+	New      string `json:"new"`
+	Nth      int    `json:"nth"`
+	Expect   string `json:"expect"`
+}
+
+func loadMutants(verif string) ([]mutantDef, error) {
+	b, err := os.ReadFile(filepath.Join(verif, "mutants", "mutants.json"))
+	if err != nil {
+		return nil, err
+	}
+	var m []mutantDef
+	if err := json.Unmarshal(b, &m); err != nil {
+		return nil, err
+	}
+	return m, nil
+}
+
+// loadMutantOverlay builds the packages.Config overlay for one named mutant.
 func loadMutantOverlay(verif, repo, name string) (map[string][]byte, error) {
-	return nil, nil
+	if name == "" {
+		return nil, nil
+	}
+	ms, err := loadMutants(verif)
+	if err != nil {
+		return nil, err
+	}
+	for _, m := range ms {
+		if m.ID != name {
+			continue
+		}
+		path := filepath.Join(repo, m.File)
+		src, err := os.ReadFile(path)
+		if err != nil {
+			return nil, err
+		}
+		s := string(src)
+		if strings.Count(s, m.Old) < 1 {
+			return nil, fmt.Errorf("INAPPLICABLE mutant %s: pattern not found in %s", name, m.File)
+		}
+		idx := -1
+		from := 0
+		for k := 0; k <= m.Nth; k++ {
+			j := strings.Index(s[from:], m.Old)
+			if j < 0 {
+				return nil, fmt.Errorf("INAPPLICABLE mutant %s: occurrence %d not found", name, m.Nth)
+			}
+			idx = from + j
+			from = idx + len(m.Old)
+		}
+		out := s[:idx] + m.New + s[idx+len(m.Old):]
+		return map[string][]byte{path: []byte(out)}, nil
+	}
+	return nil, fmt.Errorf("no mutant named %q", name)
+}
+
+func thorough(c *Ctx) {
+	P := c.P
+	// 1. call-graph cross-check: CHA (used by the rules) must be a superset of VTA
+	roots := c07Roots(&Ctx{P: P, ruleCount: map[string]int{}, seenKeys: map[string]bool{}, Extra: map[string]interface{}{}}, "x")
+	if len(roots) > 0 {
+		cha := P.ReachableModule(roots)
+		vta := P.VTA()
+		n := 0
+		seen := map[*ssa.Function]bool{}
+		var walk func(f *ssa.Function)
+		walk = func(f *ssa.Function) {
+			if seen[f] {
+				return
+			}
+			seen[f] = true
+			if P.InModule(f) {
+				n++
+			}
+			if node := vta.Nodes[f]; node != nil {
+				for _, e := range node.Out {
+					if P.InModule(e.Callee.Func) {
+						walk(e.Callee.Func)
+					}
+				}
+			}
+		}
+		for _, r := range roots {
+			walk(r)
+		}
+		missing := 0
+		for f := range seen {
+			if P.InModule(f) && f.Synthetic == "" && !cha[f] {
+				missing++
+			}
+		}
+		c.Extra["callgraph_crosscheck"] = map[string]int{"cha_reachable_module_functions": len(cha), "vta_reachable_module_functions": n, "in_vta_not_in_cha": missing}
+	}
+	// 2. build coverage: reload for a 32-bit target; the package/function sets must match
+	c.Extra["build_coverage"] = buildCoverage(c)
+	// 3. C07: compiler bounds-check cross-reference
+	if c.Property == "C07" {
+		c.Extra["bce_crosscheck"] = bceCrossCheck(c)
+	}
+	// 4. sensitivity matrix
+	c.Extra["mutants"] = runMutantMatrix(c)
+	// 5. cross-reference tools (counts only; nothing they report decides a property)
+	c.Extra["cross_reference"] = crossReference(c)
+}
+
+func buildCoverage(c *Ctx) map[string]interface{} {
+	out := map[string]interface{}{}
+	os.Setenv("VERIF_GOARCH", "386")
+	p2, err := LoadProg(c.P.Repo, nil)
+	os.Unsetenv("VERIF_GOARCH")
+	if err != nil {
+		out["goarch_386"] = "load failed: " + err.Error()
+		return out
+	}
+	out["goarch_386_packages"] = len(p2.Pkgs)
+	out["goarch_386_functions"] = len(p2.modFns)
+	out["default_packages"] = len(c.P.Pkgs)
+	out["default_functions"] = len(c.P.modFns)
+	out["same_function_set"] = len(p2.modFns) == len(c.P.modFns) && len(p2.Pkgs) == len(c.P.Pkgs)
+	return out
+}
+
+// bceCrossCheck compiles (does not run) the rtcm packages with the compiler's
+// bounds-check debug output and verifies that every bounds check the compiler
+// could not eliminate, inside a function reachable from the C07 roots, is one
+// of the enumerated index/slice obligations (by source position).
+func bceCrossCheck(c *Ctx) map[string]interface{} {
+	out := map[string]interface{}{}
+	cache, err := os.MkdirTemp("", "verif-gocache-")
+	if err != nil {
+		out["error"] = err.Error()
+		return out
+	}
+	defer os.RemoveAll(cache)
+	cmd := exec.Command("go", "build", "-gcflags=all=-d=ssa/check_bce/debug=1", "./rtcm/...")
+	cmd.Dir = c.P.Repo
+	cmd.Env = append(os.Environ(), "GOFLAGS=-mod=readonly", "GOCACHE="+cache, "GOPROXY=off", "GOWORK=off", "GOTOOLCHAIN=local")
+	var buf bytes.Buffer
+	cmd.Stdout, cmd.Stderr = &buf, &buf
+	cmd.Run()
+	re := regexp.MustCompile(`(?m)^(\S+\.go):(\d+):(\d+): Found Is(Slice)?InBounds`)
+	// obligation positions (file:line) from this run
+	have := map[string]bool{}
+	for _, o := range c.Obligs {
+		if strings.Contains(o.Key, ":index(") || strings.Contains(o.Key, ":slice(") || strings.Contains(o.Key, "requires(") {
+			if i := strings.LastIndex(o.Pos, ":"); i > 0 {
+				have[o.Pos[:i]] = true
+			}
+		}
+	}
+	// functions analysed: by file+line ranges
+	type span struct {
+		file       string
+		from, to   int
+	}
+	var spans []span
+	roots := c07Roots(&Ctx{P: c.P, ruleCount: map[string]int{}, seenKeys: map[string]bool{}, Extra: map[string]interface{}{}}, "x")
+	for f := range c.P.ReachableModule(roots) {
+		if d := c.P.fnDecl[f]; d != nil {
+			a, b := c.P.Fset.Position(d.Pos()), c.P.Fset.Position(d.End())
+			rel, _ := filepath.Rel(c.P.Repo, a.Filename)
+			spans = append(spans, span{rel, a.Line, b.Line})
+		}
+	}
+	total, inReach, matched := 0, 0, 0
+	var unmatched []string
+	for _, m := range re.FindAllStringSubmatch(buf.String(), -1) {
+		file := m[1]
+		if strings.HasPrefix(file, "./") {
+			file = file[2:]
+		}
+		if filepath.IsAbs(file) {
+			if r, err := filepath.Rel(c.P.Repo, file); err == nil {
+				file = r
+			}
+		}
+		if !strings.HasPrefix(file, "rtcm/") {
+			continue
+		}
+		total++
+		var line int
+		fmt.Sscanf(m[2], "%d", &line)
+		in := false
+		for _, s := range spans {
+			if s.file == file && line >= s.from && line <= s.to {
+				in = true
+			}
+		}
+		if !in {
+			continue
+		}
+		inReach++
+		// our positions are file:line:col of the SSA instruction; compare by file:line
+		ok := false
+		for k := range have {
+			if strings.HasPrefix(k, file+":"+m[2]) {
+				ok = true
+			}
+		}
+		if ok {
+			matched++
+		} else {
+			unmatched = append(unmatched, file+":"+m[2]+":"+m[3])
+		}
+	}
+	sort.Strings(unmatched)
+	out["compiler_unproven_bounds_checks_in_rtcm"] = total
+	out["of_which_in_reachable_functions"] = inReach
+	out["matched_to_an_obligation"] = matched
+	out["unmatched"] = unmatched
+	return out
+}
+
+func runMutantMatrix(c *Ctx) map[string]interface{} {
+	out := map[string]interface{}{}
+	ms, err := loadMutants(c.Verifdir)
+	if err != nil {
+		out["error"] = err.Error()
+		return out
+	}
+	self, err := os.Executable()
+	if err != nil {
+		out["error"] = err.Error()
+		return out
+	}
+	var mine []mutantDef
+	for _, m := range ms {
+		if m.Property == c.Property {
+			mine = append(mine, m)
+		}
+	}
+	type res struct {
+		id, status, detail string
+	}
+	results := make([]res, len(mine))
+	sem := make(chan struct{}, 6)
+	var wg sync.WaitGroup
+	for i, m := range mine {
+		wg.Add(1)
+		go func(i int, m mutantDef) {
+			defer wg.Done()
+			sem <- struct{}{}
+			defer func() { <-sem }()
+			tmp, _ := os.MkdirTemp("", "verif-mut-")
+			defer os.RemoveAll(tmp)
+			cmd := exec.Command(self, "-property", c.Property, "-tier", "quick", "-repo", c.P.Repo, "-verif", c.Verifdir, "-mutant", m.ID)
+			cmd.Env = append(os.Environ(), "VERIF_OUT="+tmp)
+			var buf bytes.Buffer
+			cmd.Stdout, cmd.Stderr = &buf, &buf
+			err := cmd.Run()
+			o := buf.String()
+			switch {
+			case strings.Contains(o, "INAPPLICABLE"):
+				results[i] = res{m.ID, "inapplicable", "pattern no longer present"}
+			case strings.Contains(o, "package errors"):
+				results[i] = res{m.ID, "inapplicable", "variant does not type-check"}
+			case err != nil && strings.Contains(o, m.Expect):
+				results[i] = res{m.ID, "killed", "reported " + m.Expect}
+			case err != nil:
+				results[i] = res{m.ID, "killed-other-rule", firstViolationKey(o)}
+			default:
+				results[i] = res{m.ID, "survived", ""}
+			}
+		}(i, m)
+	}
+	wg.Wait()
+	counts := map[string]int{}
+	var list []string
+	for _, r := range results {
+		counts[r.status]++
+		list = append(list, r.id+": "+r.status+" "+r.detail)
+	}
+	out["applied"] = len(mine)
+	out["counts"] = counts
+	out["results"] = list
+	return out
+}
+
+func firstViolationKey(o string) string {
+	for _, l := range strings.Split(o, "\n") {
+		if i := strings.Index(l, "key="); i >= 0 {
+			return l[i:]
+		}
+	}
+	return ""
+}
+
+func crossReference(c *Ctx) map[string]interface{} {
+	out := map[string]interface{}{}
+	run := func(name string, args ...string) {
+		cmd := exec.Command(name, args...)
+		cmd.Dir = c.P.Repo
+		cache, _ := os.MkdirTemp("", "verif-xref-")
+		defer os.RemoveAll(cache)
+		cmd.Env = append(os.Environ(), "GOFLAGS=-mod=readonly", "GOPROXY=off", "GOWORK=off", "GOTOOLCHAIN=local", "GOCACHE="+cache)
+		var buf bytes.Buffer
+		cmd.Stdout, cmd.Stderr = &buf, &buf
+		cmd.Run()
+		n := 0
+		for _, l := range strings.Split(buf.String(), "\n") {
+			if strings.Contains(l, ".go:") {
+				n++
+			}
+		}
+		out[name+" "+strings.Join(args, " ")] = n
+	}
+	if os.Getenv("VERIF_XREF") != "" {
+		run("go", "vet", "./...")
+		run("staticcheck", "./...")
+	} else {
+		out["note"] = "set VERIF_XREF=1 to record go vet / staticcheck diagnostic counts (cross-reference only; surveyed once: nothing they report decides a property)"
+	}
+	return out
 }
 
 // debugAff prints the facts known at each block of a function (diagnostics).
@@ -20,20 +350,6 @@ func debugAff(p *Prog, pkg, name string) {
 		println("block", b.Index, b.Comment)
 		for _, f := range a.FactsAt(b) {
 			println("   ", f.String())
-		}
-	}
-	println("loop invariants:")
-	for _, f := range a.loopInvariants(fn) {
-		println("   ", f.String())
-	}
-	for _, callee := range []string{"eatUntilStartOfFrame"} {
-		if g := p.Func(pkg, callee); g != nil {
-			if e := a.ensuresOf(g); e != nil {
-				println("ensures of", callee)
-				for _, c := range e.cons {
-					println("   ", c.String())
-				}
-			}
 		}
 	}
 }
